@@ -232,6 +232,8 @@ def registry_case(rng):
             we = 'N' if rng.random() < 0.6 else ilist(rng.choice(WEEKENDS[:3]))
             a = 'N' if rng.random() < 0.2 else str(t0)
             b = 'N' if rng.random() < 0.2 else str(t0 + 730)
+            if rng.random() < 0.5:     # the usual call: calendar(key, holidays) and nothing else
+                we = a = b = 'N'
             if hol == 'N' and we == 'N' and a == 'N' and b == 'N':
                 hol = '(L)'
             lines.append('(cal reg %s %s %s %s %s)' % (k, hol, we, a, b))
